@@ -110,6 +110,34 @@ def threshold_literal(nf, residual, nu_term):
     return None
 
 
+def undefined_quotients(dom, terms):
+    """Denominators that are not certified non-zero on the domain.  The normal-form identity treats a quotient as a
+    rational function and cancels common factors; that is an identity of *values* only where every denominator the
+    code actually divides by is non-zero.  `(va/vb + 1)^2 / ((va/vb)^2/(na+1) + 1/(nb+1))` is the documented dof as a
+    rational function and 0/0 = NaN for a constant second sample.  Returns the shown denominators (de-duplicated)."""
+    out, seen = [], set()
+
+    def f(s):
+        if s[0] == 'op' and s[1] == 'div' and len(s[2]) == 2:
+            b = s[2][1]
+            if b in seen:
+                return
+            seen.add(b)
+            c = T.const_num(b)
+            if c is not None and not isinstance(c, str) and c != 0:
+                return
+            try:
+                sg = dom.sign(b)
+            except (NotReal, KeyError, TypeError, ValueError):
+                sg = None
+            if sg not in ('+', '-'):
+                out.append(T.show(b)[:200])
+    for t in terms:
+        if t is not None and not isinstance(t, int):
+            T.walk(t, f)
+    return out
+
+
 def check_mean_interval(chk, pid, key, where, sm, im, cm, paths, kind, level, centre, se, nu, dom,
                         desc_prefix, subst=None, t_range=(50000, 200000), stat_atoms=None):
     """Obligation: on the domain the summary has exactly the t-path and the z-path, split by a
@@ -173,6 +201,16 @@ def check_mean_interval(chk, pid, key, where, sm, im, cm, paths, kind, level, ce
                 continue
             if not same:
                 bad.append('%s bound of the %s branch is %s, not %s' % (side, 't' if below else 'z', T.show(got)[:260], T.show(ref)[:200]))
+    if not bad:
+        # the identity above holds where the quotients of the *code* are defined: every denominator on the two accepted
+        # paths (results and guards) must be certified non-zero on the domain
+        terms = []
+        for below, p in seen.items():
+            terms.append(p.ret)
+            terms.extend(a for a, _ in p.guard if a[0] != 'variant')
+        undef = undefined_quotients(dom, terms)
+        chk.ob(key + ':div-domain', 'E4 domain of definition', desc_prefix + ' - every quotient the code forms on the accepted paths has a denominator that is non-zero on the whole domain (the rational-function identity is an identity of values only there)',
+               not undef, '' if not undef else 'the code divides by %s, which can vanish on the domain (0/0 or x/0: NaN / inf where the documented form is an ordinary number)' % undef[0], where)
     chk.ob(key, 'E3+E4 formula', desc_prefix, not bad, '; '.join(bad[:2]), where,
            sample={'obligation': key, 'centre': T.show(centre)[:80], 'se': T.show(se)[:120], 'nu': T.show(nu)[:60], 'q': T.show(q)})
     if not bad:
